@@ -116,6 +116,25 @@ def run(report, p):
             direct = isinstance(call.func, ast.Attribute) and call.func.attr == "run"
             r3.check(not direct, p.funcs[caller], call, "run() of the update checker is called synchronously instead of through start()")
 
+    # ------------------------------------------------------------------ R20.7
+    r7 = report.rule(
+        "R20.7",
+        "the checker thread is silent: nothing reachable from its run() writes to stdout / stderr (print, click.echo / secho, sys.stdout / sys.stderr, the package logger, logging, warnings) "
+        "- the only output of the update check is the callback's hint on the main thread",
+        1,
+    )
+    OUT_EXT = ("ext:click.echo", "ext:click.secho", "ext:click.echo_via_pager", "ext:sys.stdout.write", "ext:sys.stderr.write", "ext:warnings.warn", "ext:traceback.print_exc", "ext:traceback.print_exception", "ext:sys.stdout.flush")
+    for rq in runs:
+        rr = p.reachable([rq])
+        r7.instance(p.funcs[rq], p.funcs[rq].node, f"{rq}: {len(rr)} function(s) reachable")
+        for fq in sorted(rr):
+            f = p.funcs[fq]
+            for call, tg in p.calls[fq]:
+                outs = [t for t in tg if t == "builtin:print" or t in OUT_EXT or t.startswith("ext:logging.") or (t.startswith("extm:") and ("sys.stdout" in t or "sys.stderr" in t)) or (t.startswith("extm:logging.") and t.split(".")[-1] in ("debug", "info", "warning", "error", "critical", "exception", "log"))]
+                if outs:
+                    r7.check(False, f, call, f"the update-check thread can write to the command's output through {outs[0].split(':')[-1]} (reached from {rq} via {' -> '.join(p.witness(rr, fq))}): a line from the background check lands in the middle of the command's own stdout/stderr", construct=f"output from the checker thread: {norm(call)[:60]}")
+        r7.check(True, p.funcs[rq], p.funcs[rq].node, "")
+
     # ------------------------------------------------------------------ R20.4
     r4 = report.rule(
         "R20.4",
